@@ -4,5 +4,6 @@ CONSTANTS
   MaxOps = 2
   CpsMode = FALSE
 INVARIANT GeneratorIsWellTyped
+INVARIANT IllTypedMustBeRejected
 INVARIANT Export
 CHECK_DEADLOCK FALSE
